@@ -4,7 +4,15 @@ package main
 
 type rng struct{ s uint64 }
 
-func newRng(seed uint64) *rng { return &rng{s: seed*0x9E3779B97F4A7C15 + 0x1234567} }
+// newRng mixes the seed first: consecutive seeds must not give shifted copies
+// of one stream.
+func newRng(seed uint64) *rng {
+	r := &rng{s: seed ^ 0xD1B54A32D192ED03}
+	r.s = r.u64() ^ (seed << 1)
+	r.s = r.u64()
+
+	return r
+}
 
 func (r *rng) u64() uint64 {
 	r.s += 0x9E3779B97F4A7C15
